@@ -90,10 +90,15 @@ def _worker(task):
         out["samples"].append({"args": shown[:400], "result": repr(result)[:300],
                                "raised": repr(exc) if exc else None})
       for clause, detail in failures:
-        if len(out["failures"]) < 40:
+        cls = contract.classify(args, clause, detail)
+        k = (clause, cls)
+        out.setdefault("class_counts", {})
+        out["class_counts"][repr(k)] = out["class_counts"].get(repr(k), 0) + 1
+        # at most 3 records per (clause, class) and worker, so that a frequent known class can
+        # never crowd out a new one
+        if out["class_counts"][repr(k)] <= 3 and len(out["failures"]) < 400:
           out["failures"].append({"clause": clause, "detail": str(detail)[:600], "args": shown[:1500],
-                                  "result": repr(result)[:600],
-                                  "class": contract.classify(args, clause, detail)})
+                                  "result": repr(result)[:600], "class": cls})
   except Exception:
     out["crash"] = traceback.format_exc(limit=8)
   out["nontrivial"] = len(out["nontrivial"])
